@@ -501,6 +501,80 @@ def install_exact_strings(I):
         return m_search(I_, st, args, dty, site)
     for n in ('std::iter::Iterator::all', 'std::iter::Iterator::any', 'std::iter::Iterator::find'):
         I.models[n] = search
+    m_filter = I.models.get('std::iter::Iterator::filter')
+
+    def filt(I_, st, args, dty, site):
+        """filter over a known short sequence: the predicate is evaluated per element (one state per outcome vector)"""
+        from .models import as_iter
+        it = as_iter(I_, st, args[0])
+        if it is not None and it[0] == 'it' and it[1] == 'seq' and len(it[2]) - it[3] <= 8:
+            elems = it[2][it[3]:]
+            work = [(st.clone(), 0, ())]
+            outs = []
+            while work:
+                s, i, kept = work.pop()
+                if i == len(elems):
+                    outs.append((s, ('it', 'seq', kept, 0, it[4])))
+                    continue
+                e = elems[i]
+                rs = I_.call_closure(s, args[1], [('r', I_.alloc(s, e))], site) or []
+                for s2, b in rs:
+                    if b[0] != 'i':
+                        return m_filter(I_, st, args, dty, site)
+                    lo, hi = D.get_iv(s2, b[1])
+                    for val in (0, 1):
+                        if lo <= val <= hi:
+                            s3 = s2.clone()
+                            D.set_iv(s3, b[1], val, val)
+                            work.append((s3, i + 1, kept + ((e,) if val else ())))
+            return outs
+        return m_filter(I_, st, args, dty, site)
+    I.models['std::iter::Iterator::filter'] = filt
+
+    # exact whitespace splitting and collecting into an exact array (stands for the Vec)
+    m_sw = I.models.get('core::str::<impl str>::split_whitespace')
+    m_collect = I.models.get('std::iter::Iterator::collect')
+    m_vlen = I.models.get('std::vec::Vec::<T, A>::len')
+    m_vindex = I.models.get('<std::vec::Vec<T, A> as std::ops::Index<I>>::index')
+
+    def split_ws(I_, st, args, dty, site):
+        xt = xt_of(I_, st, args[0])
+        if xt is not None and not xt.rest and site['callee'].endswith('split_whitespace'):
+            parts = [[]]
+            for c in xt.chars:
+                if c[0] == 'c' and c[1].isspace():
+                    parts.append([])
+                else:
+                    parts[-1].append(c)
+            vals = tuple(('str', new_string(I_, st, XText(p_, xt.nums, False))) for p_ in parts if p_)
+            return [(st, ('it', 'seq', vals, 0, False))]
+        return m_sw(I_, st, args, dty, site)
+
+    def collect(I_, st, args, dty, site):
+        it = args[0]
+        if it[0] == 'it' and it[1] == 'seq' and dty is not None and dty.get('path') == 'std::vec::Vec':
+            return [(st, ('a', tuple(it[2][it[3]:])))]
+        return m_collect(I_, st, args, dty, site)
+
+    def vlen(I_, st, args, dty, site):
+        v = deref(I_, st, args[0])
+        if v is not None and v[0] == 'a':
+            return [(st, const_int(len(v[1]), 'usize'))]
+        return m_vlen(I_, st, args, dty, site)
+
+    def vindex(I_, st, args, dty, site):
+        v = deref(I_, st, args[0])
+        if v is not None and v[0] == 'a' and _intarg(args[1]):
+            lo, hi = D.get_iv(st, args[1][1])
+            if lo == hi and 0 <= lo < len(v[1]):
+                return [(st, ('r', I_.alloc(st, v[1][int(lo)])))]
+            if lo == hi:
+                return []         # index out of bounds: the path panics (recorded by the ordinary model in other analyses)
+        return m_vindex(I_, st, args, dty, site)
+    I.models['core::str::<impl str>::split_whitespace'] = split_ws
+    I.models['std::iter::Iterator::collect'] = collect
+    I.models['std::vec::Vec::<T, A>::len'] = vlen
+    I.models['<std::vec::Vec<T, A> as std::ops::Index<I>>::index'] = vindex
     I.models['core::str::<impl str>::split'] = split
     I.models['core::str::traits::<impl std::cmp::PartialEq for str>::eq'] = eq
     for n in ('<std::string::String as std::cmp::PartialEq<str>>::eq', "<std::string::String as std::cmp::PartialEq<&'a str>>::eq",
